@@ -1,7 +1,7 @@
 (* C15/Props.v : the property theorems.  Model: C15/Model.v; specification: Model.denote
    (structural recursion with matrix sum/product/power over Base/Mat.embed).  *)
 From Coq Require Import ZArith List Bool Arith Sorted Permutation.
-From QV Require Import Base.Mat Base.Zi C15.MatDefs C15.Model C15.MatAlg C15.Proofs C15.Proofs2 C15.Proofs3 C15.Proofs4 C15.Proofs5.
+From QV Require Import Base.Mat Base.Zi C15.MatDefs C15.Model C15.MatAlg C15.Proofs C15.Proofs2 C15.Proofs3 C15.Proofs4 C15.Proofs5 C15.Proofs6.
 Import ListNotations.
 
 (* ---- dense route: _get_symbol_matrix / calculate_dense compute the mathematical operator ---- *)
@@ -159,4 +159,19 @@ Proof. exact maxcut_ok. Qed.
 Print Assumptions models_ok_maxcut.
 
 Example models_nonvacuous : tfim_dense 3 2 = denote 3 (tfim_form 3 2) /\ length (tfim_dense 3 2) = 8.
+Proof. split; vm_compute; reflexivity. Qed.
+
+(* ---- expectation from samples, dense route, proved part: the qubit map is a permutation of the
+        whole register and every key has one bit per qubit.  (Partial maps: refuted above.  The
+        symbolic route for terms with one Z per qubit is covered by the correspondence only.) ---- *)
+Theorem samples_dense_ok_partial : forall n M fr qmap,
+  is_diag M = true -> length M = 2 ^ n -> Permutation qmap (seq 0 n) ->
+  Forall (fun kc : list bool * Z => length (fst kc) = n) fr ->
+  dense_samples M fr qmap = Some (samples_spec n M fr qmap, ftotal fr).
+Proof. exact samples_dense_perm. Qed.
+Print Assumptions samples_dense_ok_partial.
+
+Example samples_dense_nonvacuous :
+  let M := denote 2 (FAdd (FSym PZ 0) (FMul (FNum (2, 0)%Z) (FSym PZ 1))) in
+  is_diag M = true /\ dense_samples M [([true; false], 3%Z); ([false; false], 5%Z)] [1; 0] = Some (12%Z, 8%Z).
 Proof. split; vm_compute; reflexivity. Qed.
